@@ -1,7 +1,9 @@
 # C16 — every frame reports a consistent, in-range player state.
-import os, sys, json
+import os, sys, json, tempfile, shutil
 from fractions import Fraction
 import vcommon as V
+sys.path.insert(0, os.path.join(V.VERIF, "gen"))
+import modgen
 
 def gen_vops(rng, maxvoc, vchans, ntracks, nsmp, virtual, n):
     ops = []
@@ -127,14 +129,32 @@ def main():
         extra = sorted(x for x in os.listdir(os.path.join(data, "data", "m")) if not x.endswith((".gz", ".bz2", ".xz", ".zip", ".lha", ".Z", ".set", ".nt", ".as")) and not x.startswith("smp."))
         rng.shuffle(extra)
         mods += ["data/m/" + x for x in extra[: (6 if tier == "quick" else 120)]]
+        gendir = tempfile.mkdtemp(prefix="vp-c16-", dir="/var/tmp")
+        genmods = []
+        if not replay:
+            for gi in range(16 if tier == "quick" else 300):
+                fmt = ("mod", "xm", "s3m", "it")[gi % 4]
+                song = modgen.random_flow_song(rng, fmt, vocab=('speed', 'tempo', 'delay', 'jump', 'break', 'loop', 'notedelay'), hostile=True, density=0.25)
+                if fmt == "it" and rng.random() < 0.7:
+                    # Impulse Tracker tempo slides T0x / T1x: the tempo changes on every tick of the row
+                    for pat in song['patterns']:
+                        for row in pat:
+                            if rng.random() < 0.2:
+                                row[0] = dict(row[0] or {}, fx=('raw', (20, rng.choice((0x01, 0x05, 0x0f, 0x11, 0x15, 0x1f, 0x00)))))
+                gp = os.path.join(gendir, "g%03d.%s" % (gi, fmt))
+                open(gp, "wb").write(modgen.WRITERS[fmt](song))
+                genmods.append(gp)
+        mods = mods + genmods
         if replay:
             rp = json.load(open(replay)); mods = [rp["module"]]
+            if rp.get("module_hex"):
+                os.makedirs(os.path.dirname(rp["module"]), exist_ok=True); open(rp["module"], "wb").write(bytes.fromhex(rp["module_hex"]))
         nbad = 0
         frames_total = 0
         opst = {}
         for m in mods:
-            path = os.path.join(data, m)
-            for rep in range(2 if tier == "quick" else 5):
+            path = m if os.path.isabs(m) else os.path.join(data, m)
+            for rep in range(3 if tier == "quick" else 6):
                 rate = rng.choice((4000, 8000, 22050, 44100, 48000, 49170))
                 fmt = rng.randrange(0, 8)
                 numvoc = rng.choice((0, 0, 2, 8, 64))
@@ -145,9 +165,16 @@ def main():
                     rate, fmt, numvoc, mode, script = rp["rate"], rp["format"], rp["numvoc"], rp["mode"], [tuple(x) for x in rp["script"]]
                 else:
                     script = []
-                    for _ in range(14 if tier == "quick" else 40):
-                        script.append(("P", rng.choice((1, 2, 7, 30, 60))))
+                    if rep == 2:
+                        # uninterrupted playback well past the first loop: the loop counter must never decrease
+                        script = [("P", 2500 if tier == "quick" else 12000)]
+                    for _ in range(0 if rep == 2 else (14 if tier == "quick" else 40)):
+                        # sometimes several control calls in a row with no frame played in between
+                        script.append(("P", rng.choice((0, 0, 1, 2, 7, 30, 60))))
                         r = rng.random()
+                        if rng.random() < 0.25:
+                            # motif: reposition and pick a row at once, then look at the very next frames
+                            script.append(("SP", rng.randrange(0, 10))); script.append(("SR", rng.choice((0, 1, 2, 5, 7, 8, 15, 31, 63)))); script.append(("P", 3)); continue
                         if r < 0.2: script.append(("SP", rng.choice((0, 1, 2, 3, 5, 255, 256, -1, -2, -2147483648, 2147483647, rng.randrange(0, 40)))))
                         elif r < 0.35: script.append(("SR", rng.choice((0, 1, 31, 63, 64, 255, -1, -64, -2147483648, 2147483647, rng.randrange(0, 70)))))
                         elif r < 0.45: script.append(("NX",))
@@ -161,8 +188,11 @@ def main():
                 if not out or not out[0].startswith("M "):
                     continue
                 if r.returncode != 0:
-                    ck.violation({"engine": "frames", "module": m, "rate": rate, "format": fmt, "numvoc": numvoc, "mode": mode, "script": script,
-                                  "broken": "sanitizer / crash during playback", "stderr": r.stderr[-2000:]}, key="frames-crash:%s" % m)
+                    cr = {"engine": "frames", "module": m, "rate": rate, "format": fmt, "numvoc": numvoc, "mode": mode, "script": script,
+                          "broken": "sanitizer / crash during playback", "stderr": r.stderr[-2500:]}
+                    if os.path.isabs(m) and os.path.exists(m) and os.path.getsize(m) < 200000:
+                        cr["module_hex"] = open(m, "rb").read().hex()
+                    ck.violation(cr, key="frames-crash:%s" % os.path.basename(m))
                     continue
                 vw = out[2].split()     # "V maxvoc vchans ntracks"
                 # hypothesis of the voice invariant: virtual channels enabled, or no new-note actions (the library's own
@@ -192,6 +222,8 @@ def main():
                 frames_total += len(fl)
                 ck.count(len(fl))
                 case = {"engine": "frames", "module": m, "rate": rate, "format": fmt, "numvoc": numvoc, "mode": mode, "script": script}
+                if os.path.isabs(m) and os.path.getsize(m) < 200000:
+                    case["module_hex"] = open(m, "rb").read().hex()
                 for i, w in enumerate(fl):
                     res = fo[i] if i < len(fo) else "missing"
                     if res.startswith("BAD") or res == "missing":
@@ -214,7 +246,8 @@ def main():
                 ck.nontrivial(("frames", m, rate, fmt, numvoc, mode, tuple(script)))
                 if replay:
                     break
-        ck.engine_stat("frames", modules=len(mods), frames=frames_total, control_ops=opst, predicate_failures=nbad)
+        shutil.rmtree(gendir, ignore_errors=True)
+        ck.engine_stat("frames", modules=len(mods), generated_modules=len(genmods), frames=frames_total, control_ops=opst, predicate_failures=nbad)
         ck.sample({"engine": "frames", "module": mods[0], "first_frame_info": finp[2] if len(finp) > 2 else None})
     ck.cov["rule"] = ("voices: generated op sequences (setpatch with NNA/DCT/DCA, setvol incl. muted roots, resetchannel/resetvoice, queuepatch, pastnote, setnna, reset; channels incl. out-of-range) "
                       "on tables of 7 module/voice-count shapes; frames: corpus modules x random (rate, format, voices, player mode) x scripted histories of play / set_position / set_row / next / prev / seek / restart / stop; "
